@@ -381,6 +381,8 @@ PROPS = {
             "C03_timeout_reported_run": [],
             "C03_budget_bound_legacy_refuted": [],
             "C03_dispatch_fuel_irrelevant": [],
+            "C03_budget_monotone_reentry": [],
+            "C03_sufficient_budgets_agree_reentry": [],
         },
         n_quick=200, n_thorough=2000,
         gates=["feature.reentry", "feature.stdlib", "feature.while", "feature.call", "outcome.ETimeout",
@@ -404,8 +406,10 @@ PROPS = {
         ],
         assumptions=[
             "budget_monotone / sufficient_budgets_agree / timeout_reported_run are proved for runs without re-entry "
-            "(run_flat); with re-entry a native may swallow a nested Timeout (try1), so equality of outcomes for all "
-            "sufficient budgets needs the extra hypothesis that no Timeout was raised at any level - not proved",
+            "(run_flat) under the hypothesis 'the outcome is not Timeout'; with re-entry a native may swallow a nested "
+            "Timeout (try1), so the hypothesis of budget_monotone_reentry / sufficient_budgets_agree_reentry (proved "
+            "for `run` with every native of the menu at any nesting depth) is 'the run ends with remaining >= 1', "
+            "which is what the code-2 oracle uses too; timeout_reported_run with re-entry is not proved",
             "natives are the fixed menu of Vm.v plus the stdlib natives; an arbitrary host function is outside the theorem",
         ],
     ),
